@@ -81,6 +81,91 @@ Theorem c05_round_even_nearest : forall m s : N,
   /\ ((m + 2 ^ (s - 1) = 2 ^ s * q)%N \/ (m = 2 ^ s * q + 2 ^ (s - 1))%N -> N.even q = true).
 Proof. exact round_even_nearest. Qed.
 
+(** Integers -> floats, what the bit pattern denotes. A finite normal f64 with fields (sign, exp,
+    frac) denotes (-1)^sign * (2^52 + frac) * 2^(exp - 1075); an f32, (2^23 + frac) * 2^(exp - 150).
+    - An integer of at most 53 (resp. 24) significant bits is converted EXACTLY:
+      (2^52 + frac) = m * 2^(53 - size m) and exp = size m + 1022, i.e. the value is m itself.
+    - A larger one becomes q * 2^(size m - 53) where q = round_even m (size m - 53) is the
+      integer nearest to m / 2^(size m - 53), ties to even ([c05_round_even_nearest]), with the
+      carry into the exponent when q = 2^53: round-to-nearest-even at the unit of m's binade,
+      which is the IEEE conversion. (Payload integers have at most 64 bits: no overflow.)
+    - A negative integer is the same with the sign bit set. *)
+Theorem c05_f64_of_int_exact : forall p,
+  (N.size (Npos p) <= 53)%N ->
+  let b := f64_of_Z (Zpos p) in
+  f64_sign b = 0%N /\ f64_exp b = (N.size (Npos p) + 1022)%N
+  /\ (2 ^ 52 + f64_frac b = Npos p * 2 ^ (53 - N.size (Npos p)))%N.
+Proof. intros p H. apply (f64_of_small_exact (Npos p)); [reflexivity|exact H]. Qed.
+
+Theorem c05_f64_of_int_rounded : forall p,
+  (53 < N.size (Npos p))%N -> (N.size (Npos p) <= 1024)%N ->
+  let k := N.size (Npos p) in
+  let q := round_even (Npos p) (k - 53) in
+  let b := f64_of_Z (Zpos p) in
+  (2 ^ 52 <= q <= 2 ^ 53)%N
+  /\ ((q < 2 ^ 53)%N -> f64_sign b = 0%N /\ f64_exp b = (k + 1022)%N /\ (2 ^ 52 + f64_frac b = q)%N)
+  /\ (q = (2 ^ 53)%N -> (k < 1024)%N -> f64_sign b = 0%N /\ f64_exp b = (k + 1023)%N /\ f64_frac b = 0%N)
+  /\ (q = (2 ^ 53)%N -> k = 1024%N -> b = (2047 * 2 ^ 52)%N).
+Proof. intros p H1 H2. apply (f64_of_large_rounded (Npos p) H1 H2). Qed.
+
+Theorem c05_f32_of_int_exact : forall p,
+  (N.size (Npos p) <= 24)%N ->
+  let b := f32_of_Z (Zpos p) in
+  f32_sign b = 0%N /\ f32_exp b = (N.size (Npos p) + 126)%N
+  /\ (2 ^ 23 + f32_frac b = Npos p * 2 ^ (24 - N.size (Npos p)))%N.
+Proof. intros p H. apply (f32_of_small_exact (Npos p)); [reflexivity|exact H]. Qed.
+
+Theorem c05_f32_of_int_rounded : forall p,
+  (24 < N.size (Npos p))%N -> (N.size (Npos p) <= 128)%N ->
+  let k := N.size (Npos p) in
+  let q := round_even (Npos p) (k - 24) in
+  let b := f32_of_Z (Zpos p) in
+  (2 ^ 23 <= q <= 2 ^ 24)%N
+  /\ ((q < 2 ^ 24)%N -> f32_sign b = 0%N /\ f32_exp b = (k + 126)%N /\ (2 ^ 23 + f32_frac b = q)%N)
+  /\ (q = (2 ^ 24)%N -> (k < 128)%N -> f32_sign b = 0%N /\ f32_exp b = (k + 127)%N /\ f32_frac b = 0%N)
+  /\ (q = (2 ^ 24)%N -> k = 128%N -> b = (255 * 2 ^ 23)%N).
+Proof. intros p H1 H2. apply (f32_of_large_rounded (Npos p) H1 H2). Qed.
+
+Theorem c05_float_of_negative : forall p,
+  f64_of_Z (Zneg p) = (2 ^ 63 + f64_of_Z (Zpos p))%N /\ f32_of_Z (Zneg p) = (2 ^ 31 + f32_of_Z (Zpos p))%N.
+Proof. intros p. split; [apply encode64_neg|apply encode32_neg]. Qed.
+
+(* non-vacuity: 2^60 + 2^36 + 1 is just above an f32 rounding midpoint: it must round UP (a detour
+   through f64 would round it down - the seeded defect C05b) *)
+Example c05_f32_midpoint : f32_of_Z 1152921573326323713 = 1568669697%N.
+Proof. vm_compute. reflexivity. Qed.
+
+Check c05_f64_of_int_exact : forall p,
+  (N.size (Npos p) <= 53)%N ->
+  let b := f64_of_Z (Zpos p) in
+  f64_sign b = 0%N /\ f64_exp b = (N.size (Npos p) + 1022)%N
+  /\ (2 ^ 52 + f64_frac b = Npos p * 2 ^ (53 - N.size (Npos p)))%N.
+Check c05_f64_of_int_rounded : forall p,
+  (53 < N.size (Npos p))%N -> (N.size (Npos p) <= 1024)%N ->
+  let k := N.size (Npos p) in
+  let q := round_even (Npos p) (k - 53) in
+  let b := f64_of_Z (Zpos p) in
+  (2 ^ 52 <= q <= 2 ^ 53)%N
+  /\ ((q < 2 ^ 53)%N -> f64_sign b = 0%N /\ f64_exp b = (k + 1022)%N /\ (2 ^ 52 + f64_frac b = q)%N)
+  /\ (q = (2 ^ 53)%N -> (k < 1024)%N -> f64_sign b = 0%N /\ f64_exp b = (k + 1023)%N /\ f64_frac b = 0%N)
+  /\ (q = (2 ^ 53)%N -> k = 1024%N -> b = (2047 * 2 ^ 52)%N).
+Check c05_f32_of_int_exact : forall p,
+  (N.size (Npos p) <= 24)%N ->
+  let b := f32_of_Z (Zpos p) in
+  f32_sign b = 0%N /\ f32_exp b = (N.size (Npos p) + 126)%N
+  /\ (2 ^ 23 + f32_frac b = Npos p * 2 ^ (24 - N.size (Npos p)))%N.
+Check c05_f32_of_int_rounded : forall p,
+  (24 < N.size (Npos p))%N -> (N.size (Npos p) <= 128)%N ->
+  let k := N.size (Npos p) in
+  let q := round_even (Npos p) (k - 24) in
+  let b := f32_of_Z (Zpos p) in
+  (2 ^ 23 <= q <= 2 ^ 24)%N
+  /\ ((q < 2 ^ 24)%N -> f32_sign b = 0%N /\ f32_exp b = (k + 126)%N /\ (2 ^ 23 + f32_frac b = q)%N)
+  /\ (q = (2 ^ 24)%N -> (k < 128)%N -> f32_sign b = 0%N /\ f32_exp b = (k + 127)%N /\ f32_frac b = 0%N)
+  /\ (q = (2 ^ 24)%N -> k = 128%N -> b = (255 * 2 ^ 23)%N).
+Check c05_float_of_negative : forall p,
+  f64_of_Z (Zneg p) = (2 ^ 63 + f64_of_Z (Zpos p))%N /\ f32_of_Z (Zneg p) = (2 ^ 31 + f32_of_Z (Zpos p))%N.
+
 Check c05_f64_total : forall script a v l s,
   run script (deser_f64 a v l) s
   = match v with
@@ -112,3 +197,8 @@ Print Assumptions c05_char.
 Print Assumptions c05_f64_total.
 Print Assumptions c05_f32_total.
 Print Assumptions c05_round_even_nearest.
+Print Assumptions c05_f64_of_int_exact.
+Print Assumptions c05_f64_of_int_rounded.
+Print Assumptions c05_f32_of_int_exact.
+Print Assumptions c05_f32_of_int_rounded.
+Print Assumptions c05_float_of_negative.
